@@ -249,8 +249,10 @@ class MapObj(object):
     entries = [(key: z3 String, value: V)] in program order.  (C16: `paths`, `components[...]`)
     """
 
-    def __init__(self, entries=()):
+    def __init__(self, entries=(), value_kind=None, fetched=()):
         self.entries = list(entries)
+        self.value_kind = value_kind  # kind of the values of the unknown base (read of an unwritten key)
+        self.fetched = list(fetched)  # (key, value) pairs materialised from the base by reads
 
     def __repr__(self):
         return "MapObj(%d writes)" % len(self.entries)
